@@ -37,7 +37,7 @@ func (c06) Batches(tier string, seed uint64) []core.Batch {
 	b = append(b, spread("setrand", 2, tierN(tier, 10000, 60000))...)
 	b = append(b, spread("poss", 8, tierN(tier, 1500, 8000))...)
 	b = append(b, spread("sat", 6, 0)...)
-	return b
+	return append(b, conc(tierN(tier, 120, 800), "setrand", "poss", "sat")...)
 }
 
 func (c06) Mandatory(tier string) []string {
@@ -166,6 +166,9 @@ func explicitABI(n string) bool {
 }
 
 func (p c06) RunBatch(t *core.T, b core.Batch) {
+	if concDispatch(p, t, b) {
+		return
+	}
 	patterns, concretes := c06Domain()
 	switch b.Name {
 	case "is":
@@ -280,7 +283,7 @@ func (p c06) RunBatch(t *core.T, b core.Batch) {
 	case "sat":
 		pool := c02Pool("quick", t.Seed)[:60]
 		ops := append(append([]string{}, gen.Ops...), "", "<", ">", "==", "!=")
-		for i := b.Arg; i < len(pool); i += 6 {
+		for i := b.Arg % 6; i < len(pool); i += 6 {
 			v := pool[i]
 			t.Case("sat-row", []byte(encVer(v)), func(c *core.C) {
 				n := int64(0)
